@@ -258,6 +258,8 @@ def key_of(cfg, cpu, case, kind, em=None):
             "alias": case.get("scen", ""), "reg": case.get("reg", ""),
             # history dimension: form of the context statement on the line in front (judged in that context)
             "ctx": case.get("ctxid", ""),
+            # src = dst emulated forms (spec/IsaMsp430E.tla): 16-bit displacement of the SOURCE extension word in symbolic mode
+            "srcdst_disp": (case["ops"][0] - case["pc"] - 2) % 65536 if case.get("core") and case.get("mode") == "ADDR" else -1,
             "dev": deviation(case, em)}
 
 
